@@ -1,1 +1,317 @@
-fn main() { println!("sched-mc"); }
+//! sched-mc: bounded exhaustive exploration of the real grevm scheduler under a controlled
+//! scheduler (see /verif/DESIGN.md).
+//!
+//!   sched-mc run --prop C01 --tier quick --part 0/16 --out results.json [--budget-s 50] [--only-job ID]
+//!   sched-mc replay <replay.json>
+//!   sched-mc list --prop C01 --tier quick
+
+#![allow(dead_code)]
+
+mod case;
+mod explorer;
+mod families;
+mod job;
+mod world;
+
+use job::{run_job, KnownFindings};
+use serde_json::{json, Value};
+use std::cell::RefCell;
+use std::time::{Duration, Instant};
+
+#[derive(Clone, Copy, PartialEq, Eq, Debug)]
+pub enum Tier {
+    Quick,
+    Thorough,
+}
+
+thread_local! {
+    static RESULTS: RefCell<Option<(String, Value)>> = const { RefCell::new(None) };
+}
+
+fn flush_results() {
+    RESULTS.with(|r| {
+        if let Some((path, v)) = r.borrow().as_ref() {
+            let tmp = format!("{path}.tmp");
+            std::fs::write(&tmp, serde_json::to_vec(v).unwrap()).expect("write results");
+            std::fs::rename(&tmp, path).expect("rename results");
+        }
+    });
+}
+
+fn tune_allocator() {
+    // glibc trims the heap (madvise) after every execution otherwise, which serialises the 16
+    // explorer processes in the kernel (DESIGN.md §3.7).
+    unsafe {
+        libc::mallopt(libc::M_TRIM_THRESHOLD, i32::MAX);
+        libc::mallopt(libc::M_TOP_PAD, 64 << 20);
+        libc::mallopt(libc::M_MMAP_THRESHOLD, 1 << 30);
+    }
+}
+
+fn arg<'a>(args: &'a [String], name: &str) -> Option<&'a str> {
+    args.iter().position(|a| a == name).and_then(|i| args.get(i + 1)).map(|s| s.as_str())
+}
+
+fn main() {
+    tune_allocator();
+    // a one-thread rayon pool on this very thread: parallel_take_bundle runs inline
+    let _ = rayon::ThreadPoolBuilder::new().num_threads(1).use_current_thread().build_global();
+    // quiet panic hook: panics inside executions are observations, not output
+    std::panic::set_hook(Box::new(|info| {
+        if std::env::var_os("VERIF_PANIC_TRACE").is_some() {
+            eprintln!("panic: {info}");
+        }
+    }));
+    let args: Vec<String> = std::env::args().collect();
+    let cmd = args.get(1).map(|s| s.as_str()).unwrap_or("");
+    let code = match cmd {
+        "run" => cmd_run(&args),
+        "replay" => cmd_replay(&args),
+        "list" => cmd_list(&args),
+        "selftest" => cmd_selftest(),
+        _ => {
+            eprintln!("usage: sched-mc run|replay|list ...");
+            2
+        }
+    };
+    std::process::exit(code);
+}
+
+fn parse_tier(s: Option<&str>) -> Tier {
+    match s {
+        Some("thorough") => Tier::Thorough,
+        _ => Tier::Quick,
+    }
+}
+
+fn cmd_list(args: &[String]) -> i32 {
+    let prop = arg(args, "--prop").expect("--prop");
+    let tier = parse_tier(arg(args, "--tier"));
+    let jobs = families::jobs(prop, tier);
+    for (i, j) in jobs.iter().enumerate() {
+        println!("{i}\t{}\t{}\td={}\tsplit={}\t{}", j.family, j.gran.name(), j.bound, j.split, j.id);
+    }
+    println!("{} jobs", jobs.len());
+    0
+}
+
+/// Determinism self-test: for one job of every family of every property, explore with bound 1
+/// twice and require identical statistics and identical sets of event-trace digests. (Every child
+/// execution additionally checks its replayed prefix against its parent, always.)
+fn cmd_selftest() -> i32 {
+    let known = KnownFindings { keys: vec![] };
+    let mut n = 0;
+    for prop in families::PROPS {
+        let jobs = families::jobs(prop, Tier::Quick);
+        let mut seen = std::collections::BTreeSet::new();
+        for job in jobs.iter() {
+            if !seen.insert(job.family) {
+                continue;
+            }
+            let mut j = job.clone();
+            j.bound = j.bound.min(1);
+            let mut sig = Vec::new();
+            for _ in 0..2 {
+                match run_job(prop, &j, (0, 1), None, None, &known) {
+                    Ok(r) => sig.push((r.value["executions"].clone(), r.value["trace_digests"].clone(), r.value["root_steps"].clone(), r.violation.map(|v| v["detail"].clone()))),
+                    Err(e) => {
+                        eprintln!("MACHINERY-ERROR: selftest {}: {e}", j.id);
+                        return 2;
+                    }
+                }
+            }
+            if sig[0] != sig[1] {
+                eprintln!("MACHINERY-ERROR: selftest: job {} is not deterministic", j.id);
+                return 2;
+            }
+            n += 1;
+        }
+    }
+    println!("selftest: {n} driver families replay deterministically");
+    0
+}
+
+fn cmd_run(args: &[String]) -> i32 {
+    let prop = arg(args, "--prop").expect("--prop").to_string();
+    let tier = parse_tier(arg(args, "--tier"));
+    let part: (usize, usize) = arg(args, "--part")
+        .map(|s| {
+            let (a, b) = s.split_once('/').expect("i/n");
+            (a.parse().unwrap(), b.parse().unwrap())
+        })
+        .unwrap_or((0, 1));
+    let out = arg(args, "--out").expect("--out").to_string();
+    let budget = arg(args, "--budget-s").map(|s| Duration::from_secs_f64(s.parse().unwrap()));
+    let only_job = arg(args, "--only-job");
+    let known_path = arg(args, "--known").unwrap_or("/verif/known_findings.txt");
+    let known = KnownFindings::load(known_path);
+    let started = Instant::now();
+    let deadline = budget.map(|b| started + b);
+
+    let jobs = families::jobs(&prop, tier);
+    let total_jobs = jobs.len();
+    RESULTS.with(|r| {
+        *r.borrow_mut() = Some((
+            out.clone(),
+            json!({"property": prop, "part": [part.0, part.1], "jobs": [], "violation": null,
+                   "known": [], "total_jobs": total_jobs, "skipped_jobs": [], "machinery_error": null}),
+        ))
+    });
+    explorer::set_abandon_handler(Box::new(|err| {
+        RESULTS.with(|r| {
+            if let Some((_, v)) = r.borrow_mut().as_mut() {
+                if let Some(e) = err {
+                    v["machinery_error"] = json!(e);
+                }
+            }
+        });
+        flush_results();
+    }));
+
+    let mut exit = 0;
+    for (idx, job) in jobs.iter().enumerate() {
+        if let Some(f) = only_job {
+            if job.id != f {
+                continue;
+            }
+        }
+        let jpart = if job.split {
+            part
+        } else {
+            if idx % part.1 != part.0 {
+                continue;
+            }
+            (0, 1)
+        };
+        if deadline.is_some_and(|d| Instant::now() > d) {
+            RESULTS.with(|r| {
+                if let Some((_, v)) = r.borrow_mut().as_mut() {
+                    v["skipped_jobs"].as_array_mut().unwrap().push(json!(job.id));
+                }
+            });
+            continue;
+        }
+        // the violation (if any) must be visible to the abandon handler before a hang is reported:
+        // run_job reports through the same RESULTS cell via the closure below
+        let report = run_job_recording(&prop, job, jpart, deadline, None, &known);
+        match report {
+            Err(e) => {
+                eprintln!("MACHINERY-ERROR: job {}: {e}", job.id);
+                RESULTS.with(|r| {
+                    if let Some((_, v)) = r.borrow_mut().as_mut() {
+                        v["machinery_error"] = json!(format!("job {}: {e}", job.id));
+                    }
+                });
+                flush_results();
+                return 2;
+            }
+            Ok(has_violation) => {
+                if has_violation {
+                    exit = 1;
+                    break;
+                }
+            }
+        }
+    }
+    RESULTS.with(|r| {
+        if let Some((_, v)) = r.borrow_mut().as_mut() {
+            v["wall_s"] = json!(started.elapsed().as_secs_f64());
+        }
+    });
+    flush_results();
+    exit
+}
+
+/// Runs the job and records its report into RESULTS. The exploration callback cannot reach RESULTS
+/// before `run_job` returns, except when the process is abandoned on a hang: for that case the
+/// violation is written by `HANG_SLOT`.
+fn run_job_recording(
+    prop: &str,
+    job: &job::Job,
+    part: (usize, usize),
+    deadline: Option<Instant>,
+    only: Option<Vec<explorer::Dev>>,
+    known: &KnownFindings,
+) -> Result<bool, String> {
+    let report = run_job(prop, job, part, deadline, only, known)?;
+    let has_violation = report.violation.is_some();
+    RESULTS.with(|r| {
+        if let Some((_, v)) = r.borrow_mut().as_mut() {
+            v["jobs"].as_array_mut().unwrap().push(report.value);
+            for k in report.known {
+                v["known"].as_array_mut().unwrap().push(k);
+            }
+            if let Some(viol) = report.violation {
+                v["violation"] = viol;
+            }
+        }
+    });
+    Ok(has_violation)
+}
+
+pub fn record_hang_violation(v: Value) {
+    RESULTS.with(|r| {
+        if let Some((_, res)) = r.borrow_mut().as_mut() {
+            res["violation"] = v;
+        }
+    });
+}
+
+fn cmd_replay(args: &[String]) -> i32 {
+    let path = args.get(2).expect("replay file");
+    let v: Value = serde_json::from_slice(&std::fs::read(path).expect("read replay")).expect("json");
+    let prop = v["property"].as_str().expect("property").to_string();
+    let tier = parse_tier(v["tier"].as_str());
+    let job_id = v["job"].as_str().expect("job");
+    let devs: Vec<explorer::Dev> = v["deviations"]
+        .as_array()
+        .expect("deviations")
+        .iter()
+        .map(|d| (d[0].as_u64().unwrap() as u32, d[1].as_u64().unwrap() as u16))
+        .collect();
+    let jobs = families::jobs(&prop, tier);
+    let Some(job) = jobs.iter().find(|j| j.id == job_id) else {
+        eprintln!("MACHINERY-ERROR: job {job_id} not found in {prop}/{tier:?}");
+        return 2;
+    };
+    let out = arg(args, "--out").map(|s| s.to_string());
+    RESULTS.with(|r| {
+        *r.borrow_mut() = out.map(|o| (o, json!({"property": prop, "jobs": [], "violation": null, "known": [], "machinery_error": null})))
+    });
+    explorer::set_abandon_handler(Box::new(|err| {
+        RESULTS.with(|r| {
+            if let Some((_, v)) = r.borrow_mut().as_mut() {
+                if let Some(e) = err {
+                    v["machinery_error"] = json!(e);
+                }
+            }
+        });
+        flush_results();
+    }));
+    let known = KnownFindings { keys: vec![] };
+    match run_job(&prop, job, (0, 1), None, Some(devs), &known) {
+        Err(e) => {
+            eprintln!("MACHINERY-ERROR: {e}");
+            2
+        }
+        Ok(report) => {
+            let code = if let Some(viol) = &report.violation {
+                println!("REPRODUCED key={} detail={}", viol["key"].as_str().unwrap_or(""), viol["detail"].as_str().unwrap_or(""));
+                1
+            } else {
+                println!("NOT-REPRODUCED");
+                0
+            };
+            RESULTS.with(|r| {
+                if let Some((_, v)) = r.borrow_mut().as_mut() {
+                    v["jobs"].as_array_mut().unwrap().push(report.value.clone());
+                    if let Some(viol) = report.violation.clone() {
+                        v["violation"] = viol;
+                    }
+                }
+            });
+            flush_results();
+            code
+        }
+    }
+}
